@@ -26,18 +26,18 @@ PROPS = {
     ),
     "C07": dict(
         mc=["MC_Compress"],
-        gen=[dict(module="Gen_Packet", cfg="Gen_Packet.cfg", out="packet_cases.ndjson",
-                  simulate=dict(quick="num=1500", thorough="num=25000", depth=40))],
-        topic="compress",
-        rules=["PtrValid", "PtrForbidden", "PtrRequired", "CompDecodes"],
-        shards=14,
+        runs=[dict(topic="compress", gen=[dict(module="Gen_Packet", cfg="Gen_Packet.cfg", out="packet_cases.ndjson",
+                  simulate=dict(quick="num=1500", thorough="num=25000", depth=40))], shards=14),
+              dict(topic="sinks", gen=[dict(module="Gen_Packet", cfg="Gen_Packet.cfg", out="packet_cases.ndjson",
+                  simulate=dict(quick="num=300", thorough="num=25000", depth=40))], shards=14)],
+        rules=["PtrValid", "PtrForbidden", "PtrRequired", "CompDecodes", "SinkSame"],
     ),
     "C04": dict(
-        gen=[dict(module="Gen_Packet", cfg="Gen_Packet.cfg", out="packet_cases.ndjson",
-                  simulate=dict(quick="num=600", thorough="num=25000", depth=40))],
-        topic="sinks",
-        rules=["NoPanic", "SinkErr", "SinkSame"],
-        shards=14,
+        runs=[dict(topic="sinks", gen=[dict(module="Gen_Packet", cfg="Gen_Packet.cfg", out="packet_cases.ndjson",
+                  simulate=dict(quick="num=600", thorough="num=25000", depth=40))], shards=14),
+              dict(topic="compress", gen=[dict(module="Gen_Packet", cfg="Gen_Packet.cfg", out="packet_cases.ndjson",
+                  simulate=dict(quick="num=1500", thorough="num=25000", depth=40))], shards=14)],
+        rules=["NoPanic", "SinkErr", "SinkSame", "BuildOk", "PlainCanonical", "CompDecodes"],
     ),
     "C05": dict(
         gen=[dict(module="Gen_Framing", cfg="Gen_Framing.cfg", out="framing_cases.ndjson")],
